@@ -24,7 +24,11 @@ DECS = ["1E+2", "0E-7", "-0", "1E+30", "1E-30", "12.3400", "-0.00", "12345678901
 STRS = ["a<b", "a&b", "a>b", "]]>", "<![CDATA[x]]>", "&amp;", "&lt;tag&gt;", "&", "&&", "&#65;", "&x", "é€漢😀", '"q\'', "a;b&c;d",
         "x < y && y > z", "</OFX>", "a&nbsp;b",
         "&amp;amp; &lt;b&gt;", "Ben&amp;Jerry; Inc. &lt;HQ&gt;", "&amp;#65; &amp; x", "p&amp;ss;w&lt;rd&amp;", "&amp;lt;&lt;"]
-ZONES = [(0, "UTC"), (-300, "EST"), (330, "IST"), (840, "+14"), (-720, None), (-30, "A&B"), (60, "x]y"), (345, "<NPT>"), (1, "a:b")]
+# (code points that Unicode composition EXCLUDES: normalising them makes the text longer)
+STRS += ["\u0958\u0959\ufb2a\u0f43 x", "\u0f43\u0f4d", "e\u0301\u0958"]
+ZONES = [(0, "UTC"), (-300, "EST"), (330, "IST"), (840, "+14"), (-720, None), (-30, "A&B"), (60, "x]y"), (345, "<NPT>"), (1, "a:b"),
+         # local mean times: offsets with seconds, just short of a whole hour / minute
+         (-419.9333, "LMT"), (-539.8, "LMT"), (59.5, "LMT"), (-0.5, "LMT"), (-1.25, "LMT"), (29.99, None)]
 
 
 def poison(inst, schema, types, rnd, log):
@@ -40,8 +44,8 @@ def poison(inst, schema, types, rnd, log):
                                [float("inf"), float("-inf"), float("nan"), 1e22, 0.1, -0.0, 5, 10 ** 30, True, "1e5", "NaN", " 1.5"])
             elif k in ("str", "nag"):
                 v = rnd.choice(STRS)
-                if t["len"] != -1 and len(v) > t["len"]:
-                    v = v[:t["len"]]
+                if t["len"] != -1 and (len(v) > t["len"] or rnd.random() < 0.4):
+                    v = (v + "x" * t["len"])[:t["len"]]        # exactly at the limit
             elif k == "dt":
                 off, nm = rnd.choice(ZONES)
                 tz = datetime.timezone(datetime.timedelta(minutes=off), nm) if nm else __import__("types_common").NamelessTZ(off)
@@ -51,7 +55,12 @@ def poison(inst, schema, types, rnd, log):
                 v = rnd.choice([True, False, 0, -1, 1.0, 1.5, "0x10", " 7", decimal.Decimal("2"), "1_0"])
             elif k == "oneof":
                 tok = "".join(map(chr, rnd.choice(t["valid"])))
-                v = rnd.choice([tok.lower(), tok.capitalize(), tok + " ", " " + tok, tok.swapcase(), tok[:-1] or "X", tok + "\n"])
+                # ... or a token that belongs to ANOTHER enumeration (accepted there earlier in this process)
+                others = [o for o in types if o["k"] == "oneof" and o is not t]
+                foreign = "".join(map(chr, rnd.choice(rnd.choice(others)["valid"]))) if others else "X"
+                if [ord(c) for c in foreign] in t["valid"]:
+                    foreign = tok + "X"
+                v = rnd.choice([tok.lower(), tok.capitalize(), tok + " ", " " + tok, tok.swapcase(), tok[:-1] or "X", tok + "\n", foreign, foreign])
             elif k == "bool":
                 v = rnd.choice(["y", "n", "Yes", "true", 1, 0, "1", " Y"])
             elif k == "time":
